@@ -478,6 +478,13 @@ def compress_inputs(rng, tier, kind, hdr_flag_small):
             cases.append(Case("%s 3 %s" % (kind, hexb(data)), "long-compressible-" + name))
         else:
             add(data, "long-compressible-" + name, model=False)
+    # the same entry points through the enum CompressionFormat (kind lz10f / lz13f): a slice of the family
+    fkind = kind[:-1] + "f"
+    for b in small_alphabet_exhaustive((0x61, 0x62), 7 if tier == "quick" else 10):
+        cases.append(Case("%s %s %s" % (fkind, hdr_flag_small(len(b)), hexb(b)), "format-enum-exhaustive-2-letters"))
+    for _ in range(40 if tier == "quick" else 300):
+        name, data = structured_input(rng, rng.choice([40, 300, 1500, 6000]))
+        cases.append(Case("%s %s %s" % (fkind, hdr_flag_small(len(data)), hexb(data)), "format-enum-" + name))
     nmodel, nbig, bigmax = (220, 40, 65536) if tier == "quick" else (1500, 200, 1 << 20)
     for _ in range(nmodel):
         name, data = structured_input(rng, rng.choice([40, 300, 1500, 6000]))
@@ -554,7 +561,7 @@ class LZCheckMixin:
             model_out = " ".join(model_out.split(" ")[:2])
             if impl_out == model_out:
                 return True
-        if kind == "lz13c" and impl_out.startswith("ok B13") and model_out.startswith("ok B13"):
+        if kind in ("lz13c", "lz13f") and impl_out.startswith("ok B13") and model_out.startswith("ok B13"):
             mask = lambda o: o[:6] + "......" + o[12:]
             if mask(impl_out) == mask(model_out):
                 if flag == "2":
@@ -566,7 +573,7 @@ class LZCheckMixin:
         """Called by the runner when the implementation differs from the model on `case` but the oracle accepts the
         implementation's output: the same input stretched (implementation + oracle only, flag 0)."""
         parts = case.line.split(" ")
-        if parts[0] not in ("lz10c", "lz13c"):
+        if parts[0] not in ("lz10c", "lz13c", "lz10f", "lz13f"):
             return
         for d in stretch_inputs(parse_hex(parts[2])):
             yield Case("%s 0 %s" % (parts[0], hexb(d)), case.stream + "+stretched")
